@@ -290,7 +290,9 @@ func (c *Cache) WriteSpec(raw *cdi.Spec, name string) error {
 		err     error
 	)
 
+	c.Lock()
 	specDir, prio = c.highestPrioritySpecDir()
+	c.Unlock()
 	if specDir == "" {
 		return errors.New("no Spec directories to write to")
 	}
@@ -319,7 +321,9 @@ func (c *Cache) RemoveSpec(name string) error {
 		err     error
 	)
 
+	c.Lock()
 	specDir, _ = c.highestPrioritySpecDir()
+	c.Unlock()
 	if specDir == "" {
 		return errors.New("no Spec directories to remove from")
 	}
@@ -467,12 +471,12 @@ func (c *Cache) GetSpecDirectories() []string {
 
 // GetSpecDirErrors returns any errors related to configured Spec directories.
 func (c *Cache) GetSpecDirErrors() map[string]error {
+	c.Lock()
+	defer c.Unlock()
+
 	if c.dirErrors == nil {
 		return nil
 	}
-
-	c.Lock()
-	defer c.Unlock()
 
 	errors := make(map[string]error)
 	for dir, err := range c.dirErrors {
